@@ -367,7 +367,8 @@ namespace nmtools::impl
         constexpr auto operator()([[maybe_unused]] const array_t& array) const noexcept
         {
             // prefer for explicit call to dim() first
-            if constexpr (meta::has_size_v<array_t>) {
+            // NOTE: for a nested dynamic array (e.g. vector of vector) size() is only the outer length
+            if constexpr (meta::has_size_v<array_t> && (meta::nested_array_dim_v<array_t> <= 1)) {
                 return array.size();
             } else if constexpr (meta::is_fixed_size_v<array_t>) {
                 return meta::fixed_size_v<array_t>;
